@@ -64,6 +64,7 @@ type RV struct {
 	Rules []Rule          `json:"rules,omitempty"`
 	V     *Value          `json:"v,omitempty"`
 	Note  string          `json:"note,omitempty"` // list items only: the inline comment after the item (forces a multi-line annotation)
+	Lead  string          `json:"lead,omitempty"` // lists only: an inline comment between the opening bracket and the first item (belongs to no item)
 }
 
 type Rule struct {
@@ -352,9 +353,14 @@ func (r *renderer) rulesText(rules []Rule) string {
 				}
 				noted = noted || it.Note != ""
 			}
+			noted = noted || ru.V.Lead != ""
 			v = "[" + strings.Join(items, ", ") + "]"
 			if noted { // one item per line, each followed by its comment
-				v = "[" + r.l.NL
+				v = "["
+				if ru.V.Lead != "" {
+					v += " // " + ru.V.Lead
+				}
+				v += r.l.NL
 				for j, it := range ru.V.Items {
 					v += "    " + items[j]
 					if j+1 < len(items) {
@@ -424,6 +430,9 @@ func (r *renderer) annotation(n Node) string {
 func hasItemNotes(rules []Rule) bool {
 	for _, ru := range rules {
 		if ru.V.T == "list" {
+			if ru.V.Lead != "" {
+				return true
+			}
 			for _, it := range ru.V.Items {
 				if it.Note != "" {
 					return true
